@@ -1141,6 +1141,139 @@ func policyStale(o *hlib.Out) {
 	}
 }
 
+// policyShuffle is a fixed (seed-independent) retained-state recheck: TokenAwareHostPolicy(RoundRobin, ShuffleReplicas()) on a ring with
+// factors >= 2; the stored replica map is read, many routing keys are picked (every Pick shuffles the replicas it offers), and the
+// stored map is read again: Pick must not have changed it - it is compared with the first reading, with Cassandra's placement (owner
+// first) and, as a CRing correspondence case, with the model. Every Pick must offer a permutation of the key's replicas, then the rest.
+func policyShuffle(o *hlib.Out) {
+	tokensFor := [][]string{
+		{"-7378697629483820646", "-3689348814741910323", "0", "3689348814741910323", "7378697629483820646", "-5534023222112865484", "1844674407370955161", "5534023222112865484"},
+		{"\x20", "\x50", "\x80", "\xb0", "\xe0", "\x38", "\x98", "\xc8"},
+		{"17014118346046923173168730371588410572", "51042355038140769519506191114765231716", "85070591730234615865843651857942052864", "119098828422328462212181112601118874012", "153127065114422308558518573344295695160", "34028236692093846346337460743176821144", "102084710076281539039012382229530463432", "136112946768375385385349842972707284584"},
+	}
+	keyspaces := []struct {
+		class string
+		opts  map[string]interface{}
+	}{
+		{"SimpleStrategy", map[string]interface{}{"replication_factor": "3"}},
+		{"NetworkTopologyStrategy", map[string]interface{}{"dc1": 2, "dc2": "2"}},
+	}
+	for part := 0; part < 3; part++ {
+		for ki, k := range keyspaces {
+			s := &scenario{Part: part, PName: partNames[part][0], RunMap: true, Class: k.class}
+			for i := 0; i < 5; i++ {
+				toks := []string{tokensFor[part][i]}
+				if ki == 1 && i < 3 { // vnodes in the second layout
+					toks = append(toks, tokensFor[part][5+i])
+				}
+				s.Hosts = append(s.Hosts, hostD{DC: []string{"dc1", "dc2"}[i%2], Rack: fmt.Sprintf("r%d", 1+i/2), Addr: 0x0a000001 + uint32(i), Tokens: toks})
+			}
+			opts := map[string]interface{}{"class": k.class}
+			for x, y := range k.opts {
+				opts[x] = y
+			}
+			setOpts(s, opts)
+			pol := gocql.TokenAwareHostPolicy(gocql.RoundRobinHostPolicy(), gocql.ShuffleReplicas())
+			ks := &gocql.KeyspaceMetadata{Name: "ks", StrategyClass: s.Class, StrategyOptions: s.opts()}
+			gocql.VerifC10InitPolicy(pol, ks, "ks")
+			pol.SetPartitioner(s.PName)
+			index := map[*gocql.HostInfo]int{}
+			for i, h := range s.Hosts {
+				a := h.Addr
+				hi := gocql.VerifC10NewHost(gocql.VerifC10Host{ID: fmt.Sprintf("h%d", i), DC: h.DC, Rack: h.Rack,
+					Addr: net.IPv4(byte(a>>24), byte(a>>16), byte(a>>8), byte(a)), Tokens: h.Tokens})
+				index[hi] = i
+				pol.AddHost(hi)
+			}
+			pol.KeyspaceChanged(gocql.KeyspaceUpdateEvent{Keyspace: "ks", Change: "CREATED"})
+			readMap := func() []gocql.VerifC10Entry {
+				toks, hs, ok := gocql.VerifC10PolicyMap(pol, "ks")
+				if !ok {
+					return nil
+				}
+				out := make([]gocql.VerifC10Entry, len(toks))
+				for i := range toks {
+					out[i].Token = toks[i]
+					for _, h := range hs[i] {
+						j, known := index[h]
+						if !known {
+							j = -2
+						}
+						out[i].Hosts = append(out[i].Hosts, j)
+					}
+				}
+				return out
+			}
+			before := readMap()
+			less := lessFor(part)
+			ring := sortedRing(s)
+			bad := ""
+			for n := 0; n < 60; n++ {
+				key := []byte{byte(n * 37), byte(n), byte(n >> 3), byte(7 * n)}
+				if part == 1 {
+					key = []byte{byte(n * 41)}
+				}
+				tok, _ := gocql.VerifC10HashToken(s.PName, key)
+				it := pol.Pick(gocql.VerifC10Query("ks", key))
+				var seq []int
+				for h := it(); h != nil && len(seq) <= 2*len(s.Hosts); h = it() {
+					seq = append(seq, index[h.Info()])
+				}
+				// the key's replicas according to the FIRST reading of the map
+				var reps []int
+				for i := range before {
+					if !less(before[i].Token, tok) {
+						reps = before[i].Hosts
+						break
+					}
+				}
+				if reps == nil && len(before) > 0 {
+					reps = before[0].Hosts
+				}
+				if bad == "" && (len(seq) != len(s.Hosts) || !sameSet(seq[:minInt(len(reps), len(seq))], reps)) {
+					bad = fmt.Sprintf("routing key %x (token %q): Pick offered %v, the replicas are %v", key, tok, seq, reps)
+				}
+				if _, dup := dupHost(seq); dup && bad == "" {
+					bad = fmt.Sprintf("routing key %x: Pick offered a host twice: %v", key, seq)
+				}
+			}
+			after := readMap()
+			if bad == "" && len(after) != len(before) {
+				bad = fmt.Sprintf("the stored replica map has %d entries after the picks, %d before", len(after), len(before))
+			}
+			for i := range after {
+				if bad != "" {
+					break
+				}
+				if after[i].Token != before[i].Token || !sameList(after[i].Hosts, before[i].Hosts) {
+					bad = fmt.Sprintf("Pick changed the stored replica map: token %q had %v, now has %v", before[i].Token, before[i].Hosts, after[i].Hosts)
+				} else if owner := ringWalk(ring, less, after[i].Token)[0]; len(after[i].Hosts) == 0 || after[i].Hosts[0] != owner {
+					bad = fmt.Sprintf("stored replicas of token %q are %v: the owner %d is not first", after[i].Token, after[i].Hosts, owner)
+				}
+			}
+			// the map as stored AFTER the picks, as a correspondence case against the model
+			hosts := make([]gocql.VerifC10Host, len(s.Hosts))
+			for i, h := range s.Hosts {
+				a := h.Addr
+				hosts[i] = gocql.VerifC10Host{ID: fmt.Sprintf("h%d", i), DC: h.DC, Rack: h.Rack, Addr: net.IPv4(byte(a>>24), byte(a>>16), byte(a>>8), byte(a)), Tokens: h.Tokens}
+			}
+			s.Lookups = nil
+			res := gocql.VerifC10Run(s.PName, hosts, ks, nil, true)
+			res.Map, res.HaveMap = after, after != nil
+			idx := -1
+			if !o.Search {
+				idx = o.Case("policy-shuffle-retained", true, ringTerm(s, &res))
+			} else {
+				o.Count("policy-shuffle-retained")
+			}
+			if bad != "" {
+				violate(o, idx, "pick-keeps-replica-map", "", bad, s.json())
+			}
+			monitors(o, idx, s, &res, true)
+		}
+	}
+}
+
 func setOpts(s *scenario, opts map[string]interface{}) {
 	s.OptKeys, s.OptVals = nil, nil
 	for k := range opts {
@@ -1374,6 +1507,7 @@ func main() {
 		// failing-input search: monitors only, more and larger rings, vnode-heavy and DC-heavy
 		witnesses(o)
 		policyStale(o)
+		policyShuffle(o)
 		for i := 0; i < 4000*o.Scale/5; i++ {
 			runScenario(o, "search", genScenario(r, genOpts{maxHosts: 16, maxTokens: 8, maxDCs: 4, maxRacks: 4}))
 		}
@@ -1390,6 +1524,7 @@ func main() {
 
 	witnesses(o)
 	policyStale(o)
+	policyShuffle(o)
 	strategyCases(o, 120*o.Scale)
 	tokenCases(o, 80*o.Scale)
 	// structured: inside the property's quantifier (plus keyspace DCs outside the ring)
